@@ -53,18 +53,39 @@ def lookup (w : World) (i : Nat) (key : Bytes × Bool) : Option Entry :=
 def renameShared (cell : Nat) (name : Bytes) (es : List Entry) : List Entry :=
   es.map (fun e => if e.shared = some cell then { e with qname := name } else e)
 
+/-- the copy of a stored message a hit puts into the context: new objects, the ID of the query -/
+def hitResp (c : Ctx) (w : World) (e : Entry) : Resp :=
+  { id := c.qid, qname := e.qname, rcode := e.rcode, obj := w.fresh, qcell := w.fresh + 1 }
+
+def store (copyQ : Bool) (i : Nat) (key : Bytes × Bool) (r : Resp) (w : World) : World :=
+  { w with entries := { cache := i, key := key, qname := r.qname, rcode := r.rcode,
+                        shared := if copyQ then none else some r.qcell } :: w.entries }
+
+/-- the end of `cache.Exec`: the response the context holds when the rest of the chain has returned is stored under the
+key unless it is the object `before` (a pointer comparison) -/
+def finishCache (copyQ : Bool) (i : Nat) (key : Bytes × Bool) (before : Option Nat) (res : Ctx × World) : Ctx × World :=
+  match res.1.resp with
+  | some r => if before = some r.obj then res else (res.1, store copyQ i key r res.2)
+  | none => res
+
 /-- one query through the chain; the last plugin (the empty chain) is an upstream that echoes the question and leaves an
-existing response alone -/
-def run (copyQ : Bool) : List Plug → Ctx → World → Ctx × World
+existing response alone (`matches: "!has_resp"` + forward).
+
+`storeNew` is the regenerated fact `c03CacheStoresOnlyNewResponse`: `cache.Exec` compares the final response with the
+response the context held immediately before the rest of the chain ran (`rBefore`: its own hit, or what a plugin in
+front of it had set); `false` is the code before F16, which compared with its own hit only (`cachedResp != r`), so a
+miss stored whatever response the context held - also one that a plugin in front of the cache had produced for another
+question. -/
+def run (copyQ storeNew : Bool) : List Plug → Ctx → World → Ctx × World
   | [], c, w =>
     if c.resp.isSome then (c, w)
     else ({ c with resp := some { id := c.qid, qname := c.qname, rcode := 0, obj := w.fresh, qcell := w.fresh + 1 } },
           { w with fresh := w.fresh + 2 })
-  | .accept :: rest, c, w => if c.resp.isSome then (c, w) else run copyQ rest c w
+  | .accept :: rest, c, w => if c.resp.isSome then (c, w) else run copyQ storeNew rest c w
   | .redirect pat target :: rest, c, w =>
     if lower c.qname = lower pat then
       let org := c.qname
-      let (c2, w2) := run copyQ rest { c with qname := target } w
+      let (c2, w2) := run copyQ storeNew rest { c with qname := target } w
       match c2.resp with
       | some r =>
         if r.qname = target then
@@ -72,26 +93,14 @@ def run (copyQ : Bool) : List Plug → Ctx → World → Ctx × World
            { w2 with entries := renameShared r.qcell org w2.entries })
         else ({ c2 with qname := org }, w2)
       | none => ({ c2 with qname := org }, w2)
-    else run copyQ rest c w
+    else run copyQ storeNew rest c w
   | .cache i :: rest, c, w =>
-    let key := (c.qname, c.cd)
-    match lookup w i key with
+    match lookup w i (c.qname, c.cd) with
     | some e =>
-      -- hit: a copy of the stored message (new objects) with the ID of the query
-      let hit : Resp := { id := c.qid, qname := e.qname, rcode := e.rcode, obj := w.fresh, qcell := w.fresh + 1 }
-      let (c2, w2) := run copyQ rest { c with resp := some hit } { w with fresh := w.fresh + 2 }
-      match c2.resp with
-      | some r =>
-        if r.obj = hit.obj then (c2, w2)
-        else (c2, { w2 with entries := { cache := i, key := key, qname := r.qname, rcode := r.rcode,
-                                         shared := if copyQ then none else some r.qcell } :: w2.entries })
-      | none => (c2, w2)
+      finishCache copyQ i (c.qname, c.cd) (some w.fresh)
+        (run copyQ storeNew rest { c with resp := some (hitResp c w e) } { w with fresh := w.fresh + 2 })
     | none =>
-      let (c2, w2) := run copyQ rest c w
-      match c2.resp with
-      | some r => (c2, { w2 with entries := { cache := i, key := key, qname := r.qname, rcode := r.rcode,
-                                              shared := if copyQ then none else some r.qcell } :: w2.entries })
-      | none => (c2, w2)
+      finishCache copyQ i (c.qname, c.cd) (if storeNew then c.resp.map (·.obj) else none) (run copyQ storeNew rest c w)
 
 /-- what the handler sends for the query: (id, question name, rcode); REFUSED built from the query without a response -/
 def replyOf (c : Ctx) : Nat × Bytes × Nat :=
@@ -100,10 +109,10 @@ def replyOf (c : Ctx) : Nat × Bytes × Nat :=
   | none => (c.qid, c.qname, 5)
 
 /-- a history of queries (id, name, CD) to one chain; the replies in order -/
-def history (copyQ : Bool) (chain : List Plug) : List (Nat × Bytes × Bool) → World → List (Nat × Bytes × Nat)
+def history (copyQ storeNew : Bool) (chain : List Plug) : List (Nat × Bytes × Bool) → World → List (Nat × Bytes × Nat)
   | [], _ => []
   | (id, name, cd) :: qs, w =>
-    let r := run copyQ chain { qid := id, qname := name, cd := cd, resp := none } w
-    replyOf r.1 :: history copyQ chain qs r.2
+    let r := run copyQ storeNew chain { qid := id, qname := name, cd := cd, resp := none } w
+    replyOf r.1 :: history copyQ storeNew chain qs r.2
 
 end Model.C03Store
